@@ -179,8 +179,11 @@ func (mp *MintPayload) verifySignatures(signatures []*AuthorizerSignature, state
 		}
 
 		ok, err := signatureScheme.Verify(v.Signature, toSign)
-		if !ok || err != nil {
+		if err != nil {
 			return errors.Wrap(err, "failed to verify signature")
+		}
+		if !ok {
+			return errors.New("failed to verify signature")
 		}
 	}
 
